@@ -47,8 +47,10 @@ def run(tier):
     M, F = common.Model(), common.Ref(); rng = R.rng
     envs = MI.env_grid(tier, rng); eenc = [MI.enc_env(e) for e in envs]; ienv = [MI.impl_env(e) for e in envs]
     mreq, midx = [], []
-    for _ in range(400 if tier == "quick" else 10000):
+    for it in range(400 if tier == "quick" else 10000):
         s, k, feats = MI.gen_marker(rng, depth=3, leaves=rng.randint(1, 4 if tier == "quick" else 6))
+        if it % 6 == 5:      # a contradictory or always-true group among ordinary clauses
+            s, k = MI.gen_degenerate_marker(rng), 3; R.count("degenerate_group_cases")
         s2, _, _ = MI.gen_marker(rng, depth=2, leaves=rng.randint(1, 2))
         m, m2 = K.parse(s), K.parse(s2)
         if m is None or m2 is None: R.count("capped"); continue
